@@ -1,22 +1,28 @@
 (* C08 - removal and disconnection delete exactly the owned structure and nothing else.
-   Only statements; each is closed by `exact` of a lemma from Proofs/T8Frame.v, Proofs/T8Exact.v.
-   `exec experiment op caches` (Model/T8Ops.v) is the transcription of the removal / disconnect
-   interface of fim/user/{topology,node,network_service,interface}.py over the graph-level removal
-   procedures of fim/graph/abc_property_graph.py; `run m g = (result, (g', trace))` executes it from the
-   graph g; `trace` lists the deleted node ids. *)
+   Only statements; each is closed by `exact` of a lemma from Proofs/T8*.v.
+
+   `exec experiment op caches` (Model/T8Ops.v) transcribes the removal / disconnect interface of
+   fim/user/{topology,node,network_service,interface}.py over the graph-level removal procedures of
+   fim/graph/abc_property_graph.py:1086-1202; `run m g = (result, (g', tr))` executes it from graph g;
+   `tr` lists the deleted node ids; `result = inl _` is a normal return, `inr e` an exception (the
+   partial effects stay in g' and tr).  All statements quantify over ALL graphs g (no well-formedness
+   is assumed unless written), all operations and all arguments. *)
 From Coq Require Import List NArith Bool.
-From FIM Require Import Model.T8Graph Model.T8Ops Proofs.T8Frame.
+From FIM Require Import Model.T8Graph Model.T8Ops Proofs.T8Frame Proofs.T8Query Proofs.T8Sound Proofs.T8SoundTop
+     Proofs.T8Complete Proofs.T8Closed Proofs.T8Top Proofs.T8Owned Proofs.T8Handles Proofs.T8Witness.
 Import ListNotations.
 
-(* FRAME, every operation, every graph, every outcome (also after an exception with partial effects):
-   the result is the subgraph induced by the survivors *)
+(* ================= "leaves every other element, property and connection exactly as it was" ============ *)
+
+(* FRAME, every operation, every outcome (also an exception after partial effects): the result is the
+   subgraph induced by the survivors *)
 Theorem C08_frame_induced_subgraph : forall ex o cs g r g' tr,
   run (exec ex o cs) g = (r, (g', tr)) -> g' = restrict g tr.
 Proof. exact frame_exec. Qed.
 Print Assumptions C08_frame_induced_subgraph.
 
-(* a node is in the result iff it was there, with the same class, type, name and every other
-   property, and was not deleted: nothing appears, nothing that survives is modified *)
+(* a node is in the result iff it was there - with the same class, type, name and every other property -
+   and was not deleted: nothing appears, nothing that survives is modified *)
 Theorem C08_frame_nodes : forall ex o cs g r g' tr,
   run (exec ex o cs) g = (r, (g', tr)) ->
   forall x, In x (gnodes g') <-> In x (gnodes g) /\ ~ In (nid x) tr.
@@ -29,3 +35,146 @@ Theorem C08_frame_edges : forall ex o cs g r g' tr,
   forall e, In e (gedges g') <-> In e (gedges g) /\ ~ In (ea e) tr /\ ~ In (eb e) tr.
 Proof. exact frame_edges. Qed.
 Print Assumptions C08_frame_edges.
+
+(* ================= "and nothing else" ================================================================= *)
+
+(* every deleted id lies in a set described on the INITIAL graph alone (`allowed`, Proofs/T8SoundTop.v):
+   the addressed element; what hangs below it by containment (has -> components, services; connects ->
+   ports); the connection points next to a removed port (its sub-interfaces); the links attached to
+   those; and, for the API-level element removals and disconnect, the connection points peering with an
+   interface of the element across a link, with their links.  Every operation, every outcome. *)
+Theorem C08_nothing_else_deleted : forall ex o cs g r g' tr,
+  run (exec ex o cs) g = (r, (g', tr)) -> forall x, In x tr -> allowed g o x.
+Proof. exact sound_exec. Qed.
+Print Assumptions C08_nothing_else_deleted.
+
+(* ================= "deletes that element, everything it owns ..." (normal return) ==================== *)
+
+(* the addressed element is deleted (prune: no claim here, `targets g OPrune` is empty) *)
+Theorem C08_addressed_element_deleted_partial : forall ex o cs g r g' tr,
+  run (exec ex o cs) g = (inl r, (g', tr)) -> forall x, targets g o x -> In x tr.
+Proof. exact target_exec. Qed.
+Print Assumptions C08_addressed_element_deleted_partial.
+
+(* the set of deleted ids is closed under ownership: a deleted node takes its components and services, a
+   deleted component its services, a deleted service its ports, a deleted port the sub-interfaces that
+   hang on it alone, a deleted connection point its two-ended links.  Every operation except
+   remove_child_interface (which keeps the parent on purpose) and unpeer. *)
+Theorem C08_removed_set_closed : forall ex o cs g r g' tr,
+  closing o = true -> run (exec ex o cs) g = (inl r, (g', tr)) -> Closed g tr.
+Proof. exact closed_exec. Qed.
+Print Assumptions C08_removed_set_closed.
+
+(* hence everything the addressed element owns is deleted: O_node / O_comp / O_ns / O_cp are the
+   containment closures (Proofs/T8Complete.v).  `_partial`: no claim for prune. *)
+Theorem C08_owned_deleted_partial : forall ex o cs g r g' tr,
+  run (exec ex o cs) g = (inl r, (g', tr)) -> forall x, owned g o x -> In x tr.
+Proof. exact owned_exec. Qed.
+Print Assumptions C08_owned_deleted_partial.
+
+(* "... and the link": a link with exactly two ends never survives one of its ends.  Every operation. *)
+Theorem C08_two_ended_links_deleted : forall ex o cs g r g' tr,
+  run (exec ex o cs) g = (inl r, (g', tr)) ->
+  forall l i j, link2 g l i j -> In i tr -> In l tr.
+Proof. exact links2_exec. Qed.
+Print Assumptions C08_two_ended_links_deleted.
+
+(* "... the service-side port": FULL STATEMENT (false of the code):
+     forall ex o cs g r g' tr, run (exec ex o cs) g = (inl r, (g', tr)) ->
+       forall l i sp, link2 g l i sp -> type_of g sp = T_ServicePort -> In i tr -> In sp tr.
+   Witness: G1, remove_node n1 - the connected sub-interface 6 and its link 17 go, service port 16 stays
+   (the disconnect loops only visit first-level interfaces; the same holds for Node.remove_network_service,
+   Topology.remove_network_service on peered services, remove_child_interface, prune). *)
+Theorem C08_artefact_ports_deleted_refuted :
+  exists g nm r g' tr l i sp,
+    run (exec true (ORemoveNode nm) []) g = (inl r, (g', tr)) /\
+    link2 g l i sp /\ type_of g sp = T_ServicePort /\ In i tr /\ ~ In sp tr.
+Proof. exact artefact_ports_deleted_refuted. Qed.
+Print Assumptions C08_artefact_ports_deleted_refuted.
+
+(* what IS proved about service-side ports: disconnect_interface and unpeer delete them
+   (C08_addressed_element_deleted_partial with targets g (ODisconnect _ i) = the peer of i,
+   targets g (OUnpeer a b) = the two path ends), and C08_nothing_else_deleted bounds the rest. *)
+
+(* FULL STATEMENT (false): unpeer a b with no link between a port of a and a port of b deletes nothing. *)
+Theorem C08_unpeer_only_peered_refuted :
+  exists g a b,
+    (forall p, In p (cpn g a) -> forall l, In l (lks g p) -> forall q, In q (cpn g l) -> ~ In q (cpn g b)) /\
+    fst (run (exec true (OUnpeer a b) [[3]; [9]]) g) = inl [[]; []] /\
+    trace_of (run (exec true (OUnpeer a b) [[3]; [9]]) g) = [3; 4; 8; 9]%N.
+Proof. exact unpeer_only_peered_refuted. Qed.
+Print Assumptions C08_unpeer_only_peered_refuted.
+
+(* FULL STATEMENT (false): the connection point disconnect_interface deletes is a ServicePort. *)
+Theorem C08_disconnect_only_service_port_refuted :
+  exists g s i x, In x (snd (snd (run (exec true (ODisconnect s i) [[]]) g))) /\
+                  class_of g x = CCP /\ type_of g x <> T_ServicePort.
+Proof. exact disconnect_only_service_port_refuted. Qed.
+Print Assumptions C08_disconnect_only_service_port_refuted.
+
+(* ================= handles: "report the same interfaces as a freshly looked-up handle" ================ *)
+
+(* disconnect_interface through a service handle whose list was fresh; the hypothesis on the peer says
+   it has no neighbouring connection point (a service port has none) *)
+Theorem C08_handles_disconnect : forall ex s i c g cs' g' tr,
+  run (exec ex (ODisconnect s i) [c]) g = (inl cs', (g', tr)) ->
+  class_of g s = CNS ->
+  same c (cpn g s) ->
+  (forall x, get_peers g i = Some [x] -> cpn g x = []) ->
+  exists c', cs' = [c'] /\ same c' (cpn g' s).
+Proof. exact handles_disconnect. Qed.
+Print Assumptions C08_handles_disconnect.
+
+(* unpeer through two service handles (this is what fix e4d7f01 repaired: the second list) *)
+Theorem C08_handles_unpeer : forall ex a b ca cb g cs' g' tr,
+  run (exec ex (OUnpeer a b) [ca; cb]) g = (inl cs', (g', tr)) ->
+  class_of g a = CNS -> class_of g b = CNS ->
+  same ca (cpn g a) -> same cb (cpn g b) ->
+  (forall xy, unpeer_ends g a b = Some [xy] ->
+     cpn g (fst xy) = [] /\ cpn g (snd xy) = [] /\
+     class_of g (fst xy) = CCP /\ class_of g (snd xy) = CCP /\
+     ~ In (snd xy) (cpn g a) /\ ~ In (fst xy) (cpn g b)) ->
+  exists ca' cb', cs' = [ca'; cb'] /\ same ca' (cpn g' a) /\ same cb' (cpn g' b).
+Proof. exact handles_unpeer. Qed.
+Print Assumptions C08_handles_unpeer.
+
+(* FULL STATEMENT (false) for remove_interface and remove_child_interface: the handle's list is not updated *)
+Theorem C08_handles_remove_interface_refuted :
+  exists g s nm c, same c (cpn g s) /\
+    exists c' g' tr, run (exec false (ORemoveInterface s nm) [c]) g = (inl [c'], (g', tr)) /\ ~ same c' (cpn g' s).
+Proof. exact handles_remove_interface_refuted. Qed.
+Print Assumptions C08_handles_remove_interface_refuted.
+
+Theorem C08_handles_remove_child_refuted :
+  exists g p nm c, same c (cpn g p) /\
+    exists c' g' tr, run (exec true (ORemoveChild p nm) [c]) g = (inl [c'], (g', tr)) /\ ~ same c' (cpn g' p).
+Proof. exact handles_remove_child_refuted. Qed.
+Print Assumptions C08_handles_remove_child_refuted.
+
+(* what holds for every operation instead (`_partial`: the hypothesis-free part of the handle claim): a fresh
+   look-up of a surviving handle reports exactly the old interfaces that survive *)
+Theorem C08_handles_fresh_is_filtered_partial : forall ex o cs g r g' tr s,
+  run (exec ex o cs) g = (r, (g', tr)) -> ~ In s tr ->
+  forall y, In y (cpn g' s) <-> In y (cpn g s) /\ ~ In y tr.
+Proof. exact fresh_is_filtered. Qed.
+Print Assumptions C08_handles_fresh_is_filtered_partial.
+
+(* ================= non-vacuity ======================================================================== *)
+Example C08_nonvacuous_remove_node :
+  ok_of (run (exec true (ORemoveNode 10) []) G1) = true /\
+  trace_of (run (exec true (ORemoveNode 10) []) G1) = [10; 11; 12; 13; 14; 15]%N /\
+  link2 G1 15 13 14 /\ sole G1 5 6.
+Proof. split; [apply ex_remove_node_n2|]. split; [apply ex_remove_node_n2|]. split; [exact link2_G1_15 | exact sole_G1_5_6]. Qed.
+
+Example C08_nonvacuous_disconnect :
+  class_of G1 7 = CNS /\ sortN (cpn G1 7) = [8; 14; 16]%N /\ get_peers G1 13 = Some [14%N] /\ cpn G1 14 = [] /\
+  ok_of (run (exec true (ODisconnect 7 13) [[8; 14; 16]%N]) G1) = true /\
+  trace_of (run (exec true (ODisconnect 7 13) [[8; 14; 16]%N]) G1) = [14; 15]%N.
+Proof. exact ex_disconnect_hyps. Qed.
+
+Example C08_nonvacuous_unpeer :
+  unpeer_ends G2 1 2 = Some [(3, 4)%N] /\ cpn G2 3 = [] /\ cpn G2 4 = [] /\ class_of G2 3 = CCP /\ class_of G2 4 = CCP /\
+  cpn G2 1 = [3%N] /\ cpn G2 2 = [4%N] /\
+  fst (run (exec true (OUnpeer 1 2) [[3%N]; [4%N]]) G2) = inl [[]; []] /\
+  trace_of (run (exec true (OUnpeer 1 2) [[3%N]; [4%N]]) G2) = [3; 4; 5]%N.
+Proof. exact ex_unpeer_hyps. Qed.
